@@ -49,6 +49,12 @@ func (t PredefinedTopics) GetTopicID(clientID, topic string) (uint16, bool) {
 	if tAll, ok := t["*"]; ok {
 		for topicID, topicName := range tAll {
 			if topicName == topic {
+				// A "*" entry whose topicID is redefined for
+				// this client does not denote this topic for it
+				// (see GetTopicName).
+				if _, redefined := t[clientID][topicID]; redefined {
+					continue
+				}
 				return topicID, true
 			}
 		}
